@@ -6,6 +6,9 @@ kinds of cases
   grid : {id, kind, recv, vecs:[[arg class]..], allocating:[names], huge:[arg classes], intrep}
          -> discover every function-valued property of the receiver kind at run time and call it with every
             argument vector (fresh context per call); one result per call
+  fam  : {id, kind, fam:{kind: long|esc|stmt, name, src, ds, n, digit, embed}}   (a case of C04.tla FamCases)
+         -> long: render the literal (LONG_FORMS / LONG_EMBEDS), evaluate; esc / stmt: evaluate fam.src;
+            report outcome, line lengths and the kind of the returned value
 No expectation is computed here.
 """
 import re
@@ -16,23 +19,27 @@ CONC = [
     {"sp": " ", "vt": "\x0b", "nl": "\n", "a": "a", "e": "e", "b": "b", "x": "x", "u": "u", "o": "o", "g": "g",
      "0": "0", "1": "1", "7": "7", "9": "9", ".": ".", "q": "'", "Q": '"', "bs": "\\", "/": "/", "*": "*", "+": "+",
      "=": "=", "<": "<", ">": ">", "!": "!", "&": "&", "%": "%", "~": "~", "(": "(", ")": ")", "[": "[", "]": "]",
-     "{": "{", "}": "}", "#": "#"},
+     "{": "{", "}": "}", "#": "#", "ud": "\u0661"},
     {"sp": "\t", "vt": "\x0c", "nl": "\n", "a": "C", "e": "E", "b": "B", "x": "x", "u": "u", "o": "O", "g": "_",
      "0": "0", "1": "1", "7": "5", "9": "8", ".": ".", "q": '"', "Q": "'", "bs": "\\", "/": "/", "*": "*", "+": "-",
      "=": "=", "<": "<", ">": ">", "!": "!", "&": "|", "%": "^", "~": ";", "(": "(", ")": ")", "[": "[", "]": "]",
-     "{": "{", "}": "}", "#": "@"},
+     "{": "{", "}": "}", "#": "@", "ud": "\uff11"},
 ]
+# two more tables for the strings that contain the class ud: the other two digits (U+0663 ARABIC-INDIC THREE, U+0967 DEVANAGARI ONE)
+CONC.append(dict(CONC[0], ud="\u0663"))
+CONC.append(dict(CONC[1], ud="\u0967"))
 # character -> class, for the punctuator text of real tokens
 CHAR_CLASS = {}
 for _m in CONC:
     for _k, _v in _m.items():
-        CHAR_CLASS[_v] = _k
+        if _k != "ud":
+            CHAR_CLASS[_v] = _k
 for _ch in ",:?":
     CHAR_CLASS[_ch] = "~"
 
 ARG_SRC = {
     "undefined": "undefined", "null": "null", "nan": "NaN", "inf": "Infinity", "ninf": "-Infinity", "m1": "-1",
-    "zero": "0", "p31": "2147483648", "p53": "9007199254740992", "e21": "1e21", "half": "0.5", "s7": "'7'", "sx": "'x'",
+    "zero": "0", "p31": "2147483648", "p53": "9007199254740992", "e21": "1e21", "half": "0.5", "s7": "'7'", "sx": "'x'", "sparen": "'('", "sbrack": "'['",
     "obj": "({})", "arr": "[]", "fn": "(function(){return 1})",
 }
 ARG_PY = {"nan": float("nan"), "inf": float("inf"), "ninf": float("-inf"), "m1": -1.0, "zero": 0.0, "p31": 2147483648.0,
@@ -46,6 +53,27 @@ RECEIVERS = {
     "regex": "(/a/g)", "tarr": "(new Uint8Array(4))", "f64": "(new Float64Array(2))", "abuf": "(new ArrayBuffer(8))",
     "err": "(new Error('x'))", "bool": "true", "native": "Math.abs", "arrow": "((a) => a)",
 }
+
+# numeric literals of n digits (C04.tla LongForms): d = the digit 1 or the largest digit of the radix
+LONG_FORMS = {
+    "dec": lambda n, d: d["dec"] * n,
+    "decdot": lambda n, d: d["dec"] * n + ".",
+    "frac": lambda n, d: "0." + d["dec"] * n,
+    "dotfrac": lambda n, d: "." + d["dec"] * n,
+    "intfrac": lambda n, d: d["dec"] * n + "." + d["dec"] * n,
+    "exp": lambda n, d: "1e" + "0" * (n - 1) + d["dec"],
+    "expneg": lambda n, d: "1e-" + "0" * (n - 1) + d["dec"],
+    "exphuge": lambda n, d: "1e" + d["dec"] * n,
+    "decexp": lambda n, d: d["dec"] * n + "e5",
+    "hex": lambda n, d: "0x" + d["hex"] * n,
+    "hexup": lambda n, d: "0X" + d["hex"].upper() * n,
+    "oct": lambda n, d: "0o" + d["oct"] * n,
+    "bin": lambda n, d: "0b" + "1" * n,
+}
+LONG_DIGITS = {"lo": {"dec": "1", "hex": "1", "oct": "1"}, "hi": {"dec": "9", "hex": "f", "oct": "7"}}
+# the line terminators of C04.tla LineTerms, and the line lengths of a text when all of them / only LF break lines
+LT_TEXT = {"lf": "\n", "cr": "\r", "crlf": "\r\n", "ls": "\u2028", "ps": "\u2029"}
+LONG_EMBEDS = {"expr": "%s", "neg": "-%s", "arg": "Math.abs(%s)", "key": "({%s: 1})", "index": "[1][%s]"}
 
 _names = None
 _rlimit_done = False
@@ -137,6 +165,39 @@ def eval_src(api, src, time_limit=0.5, cap=300_000):
     return outcome_record(out)
 
 
+def value_kind(v):
+    """kind of the Python value Context.eval returned"""
+    if isinstance(v, bool):
+        return "bool"
+    if isinstance(v, (int, float)):
+        return "num"
+    if isinstance(v, str):
+        return "str"
+    if v is None:
+        return "none"
+    return "obj"
+
+
+def fam_case(case, api):
+    fam = case["fam"]
+    if fam["kind"] == "long":
+        src = LONG_EMBEDS[fam["embed"]] % LONG_FORMS[fam["name"]](fam["n"], LONG_DIGITS[fam["digit"]])
+        tl = 5.0
+    elif fam["kind"] == "lt":
+        src = fam["src"] + LT_TEXT[fam["digit"]] + fam["embed"]
+        tl = 0.1
+    else:
+        src = fam["src"]
+        tl = 0.1
+    out = run_patient(api, lambda: api.Context(time_limit=tl).eval(src), cap=300_000)
+    vk = value_kind(out.pop("pv")) if out["o"] == "value" else ""
+    res = {"id": case["id"], "out": outcome_record(out), "lens": line_lengths(src), "vk": vk, "srclen": len(src)}
+    if fam["kind"] == "lt":
+        res["lens2"] = res["lens"]
+        res["lens"] = [len(x) for x in re.split("\r\n|[\n\r\u2028\u2029]", src)]
+    return res
+
+
 def lex_src(api, src):
     from microjs.lexer import Lexer
     from microjs.tokens import TokenType
@@ -184,6 +245,8 @@ def driver1(case, api):
         return {"id": case["id"], "out": eval_src(api, src, time_limit=case.get("time_limit", 0.5)), "lens": line_lengths(src)}
     if kind == "grid":
         return grid(case, api)
+    if kind == "fam":
+        return fam_case(case, api)
     raise ValueError("unknown case kind " + kind)
 
 
